@@ -77,12 +77,25 @@ func TestVerif_C23_Tenant(t *testing.T) {
 		}
 		// repository names are only unique per tenant: let two repositories of different tenants
 		// share a name in half of the corpora (ids stay distinct)
-		if ci%2 == 1 && len(c.Repos) >= 2 {
-			a, b := 0, 1+rng.Intn(len(c.Repos)-1)
-			if c.Repos[a].Tenant == c.Repos[b].Tenant {
-				c.Repos[b].Tenant = c.Repos[a].Tenant%3 + 1
+		if ci%2 == 1 {
+			// two live repositories of different tenants sharing a name inside ONE shard
+			done := false
+			for a := 0; a < len(c.Repos) && !done; a++ {
+				for b := a + 1; b < len(c.Repos) && !done; b++ {
+					if c.Repos[a].Shard == c.Repos[b].Shard {
+						if c.Repos[a].Tenant == c.Repos[b].Tenant {
+							c.Repos[b].Tenant = c.Repos[a].Tenant%3 + 1
+						}
+						c.Repos[b].Name = c.Repos[a].Name
+						c.Repos[a].Tomb, c.Repos[b].Tomb = false, false
+						c.Repos[a].Tenant = 1 + ci/2%2 // make sure one of them belongs to a requesting tenant
+						if c.Repos[b].Tenant == c.Repos[a].Tenant {
+							c.Repos[b].Tenant = 3
+						}
+						done = true
+					}
+				}
 			}
-			c.Repos[b].Name = c.Repos[a].Name
 		}
 		l := c01Load(t, c, true)
 		tr.Emit(c.Event())
@@ -92,99 +105,113 @@ func TestVerif_C23_Tenant(t *testing.T) {
 			{T: "repo", Pat: "."}, {T: "repoids", IDs: []uint32{c.Repos[0].ID}}, g.Tree(2), g.Tree(2)}
 		for _, q := range qs {
 			zq := q.Zoekt()
+			hasTypeRepo := q.T == "type" || q.T == "and" || q.T == "or" || q.T == "not" || q.T == "boost"
+			type target struct {
+				kind  string
+				shard int
+			}
+			targets := []target{{"dir", 0}}
+			if !hasTypeRepo {
+				// also every shard searcher directly (the sharded searcher merges list entries by name)
+				seen := map[int]bool{}
+				for _, r := range c.Repos {
+					if !seen[r.Shard] {
+						seen[r.Shard] = true
+						targets = append(targets, target{"shard", r.Shard})
+					}
+				}
+			}
 			for _, who := range whos {
-				ctx := ctxs[who]
-				kind, shard := "dir", 0
-				var s zoekt.Streamer = l.dir
-				hasTypeRepo := q.T == "type" || q.T == "and" || q.T == "or" || q.T == "not" || q.T == "boost"
-				if rng.Intn(2) == 0 && !hasTypeRepo {
-					kind, shard = "shard", c.Repos[rng.Intn(len(c.Repos))].Shard
-				}
-				emit := func(op, outcome string, n *c23Names, files []verifkit.M) {
-					if n == nil {
-						n = &c23Names{}
-					}
-					if n.list == nil {
-						n.list = []verifkit.M{}
-					}
-					if n.ids == nil {
-						n.ids = []uint32{}
-					}
-					if files == nil {
-						files = []verifkit.M{}
-					}
-					tr.Emit(verifkit.M{"ev": "tenant", "cid": c.ID, "op": op, "who": who, "kind": kind, "shard": shard, "q": q.JSON(),
-						"qs": zq.String(), "outcome": outcome, "names": n.list, "ids": n.ids, "files": files, "mode": "line", "ctx": 0})
-				}
-				search := func(opts *zoekt.SearchOptions) (*zoekt.SearchResult, string) {
-					var res *zoekt.SearchResult
-					var err error
-					p := verifkit.Catch(func() {
-						if kind == "shard" {
-							res, err = l.shards[shard].Search(ctx, zq, opts)
-						} else {
-							res, err = s.Search(ctx, zq, opts)
+				for _, tg := range targets {
+					ctx := ctxs[who]
+					kind, shard := tg.kind, tg.shard
+					var s zoekt.Streamer = l.dir
+					emit := func(op, outcome string, n *c23Names, files []verifkit.M) {
+						if n == nil {
+							n = &c23Names{}
 						}
-					})
-					if p != nil {
-						return nil, "panic"
-					}
-					if err != nil {
-						return nil, "error:" + err.Error()
-					}
-					return res, "ok"
-				}
-				// Search
-				res, outcome := search(&zoekt.SearchOptions{ChunkMatches: rng.Intn(2) == 0})
-				if res != nil {
-					emit("search", outcome, c23FromResult(res), c.Files(l.idx, res, corpus.DetailFiles))
-				} else {
-					emit("search", outcome, nil, nil)
-				}
-				// StreamSearch: every streamed event separately
-				if kind == "dir" {
-					p := verifkit.Catch(func() {
-						err := s.StreamSearch(ctx, zq, &zoekt.SearchOptions{}, zoekt.SenderFunc(func(ev *zoekt.SearchResult) {
-							emit("stream", "ok", c23FromResult(ev), nil)
-						}))
-						if err != nil {
-							emit("stream", "error:"+err.Error(), nil, nil)
+						if n.list == nil {
+							n.list = []verifkit.M{}
 						}
-					})
-					if p != nil {
-						emit("stream", "panic", nil, nil)
-					}
-				}
-				// List, both field modes
-				for _, field := range []zoekt.RepoListField{zoekt.RepoListFieldRepos, zoekt.RepoListFieldReposMap} {
-					var rl *zoekt.RepoList
-					var err error
-					p := verifkit.Catch(func() {
-						if kind == "shard" {
-							rl, err = l.shards[shard].List(ctx, zq, &zoekt.ListOptions{Field: field})
-						} else {
-							rl, err = s.List(ctx, zq, &zoekt.ListOptions{Field: field})
+						if n.ids == nil {
+							n.ids = []uint32{}
 						}
-					})
-					switch {
-					case p != nil:
-						emit("list", "panic", nil, nil)
-					case err != nil:
-						emit("list", fmt.Sprint("error:", err), nil, nil)
-					default:
-						n := &c23Names{}
-						for _, r := range rl.Repos {
-							n.add("List.Repos", r.Repository.Name)
-							n.ids = append(n.ids, r.Repository.ID)
-							for _, sr := range r.Repository.SubRepoMap {
-								n.add("List.SubRepoMap", sr.Name)
+						if files == nil {
+							files = []verifkit.M{}
+						}
+						tr.Emit(verifkit.M{"ev": "tenant", "cid": c.ID, "op": op, "who": who, "kind": kind, "shard": shard, "q": q.JSON(),
+							"qs": zq.String(), "outcome": outcome, "names": n.list, "ids": n.ids, "files": files, "mode": "line", "ctx": 0})
+					}
+					search := func(opts *zoekt.SearchOptions) (*zoekt.SearchResult, string) {
+						var res *zoekt.SearchResult
+						var err error
+						p := verifkit.Catch(func() {
+							if kind == "shard" {
+								res, err = l.shards[shard].Search(ctx, zq, opts)
+							} else {
+								res, err = s.Search(ctx, zq, opts)
 							}
+						})
+						if p != nil {
+							return nil, "panic"
 						}
-						for id := range rl.ReposMap {
-							n.ids = append(n.ids, id)
+						if err != nil {
+							return nil, "error:" + err.Error()
 						}
-						sort.Slice(n.ids, func(i, j int) bool { return n.ids[i] < n.ids[j] })
-						emit("list", "ok", n, nil)
+						return res, "ok"
+					}
+					// Search
+					res, outcome := search(&zoekt.SearchOptions{ChunkMatches: rng.Intn(2) == 0})
+					if res != nil {
+						emit("search", outcome, c23FromResult(res), c.Files(l.idx, res, corpus.DetailFiles))
+					} else {
+						emit("search", outcome, nil, nil)
+					}
+					// StreamSearch: every streamed event separately
+					if kind == "dir" {
+						p := verifkit.Catch(func() {
+							err := s.StreamSearch(ctx, zq, &zoekt.SearchOptions{}, zoekt.SenderFunc(func(ev *zoekt.SearchResult) {
+								emit("stream", "ok", c23FromResult(ev), nil)
+							}))
+							if err != nil {
+								emit("stream", "error:"+err.Error(), nil, nil)
+							}
+						})
+						if p != nil {
+							emit("stream", "panic", nil, nil)
+						}
+					}
+					// List, both field modes
+					for _, field := range []zoekt.RepoListField{zoekt.RepoListFieldRepos, zoekt.RepoListFieldReposMap} {
+						var rl *zoekt.RepoList
+						var err error
+						p := verifkit.Catch(func() {
+							if kind == "shard" {
+								rl, err = l.shards[shard].List(ctx, zq, &zoekt.ListOptions{Field: field})
+							} else {
+								rl, err = s.List(ctx, zq, &zoekt.ListOptions{Field: field})
+							}
+						})
+						switch {
+						case p != nil:
+							emit("list", "panic", nil, nil)
+						case err != nil:
+							emit("list", fmt.Sprint("error:", err), nil, nil)
+						default:
+							n := &c23Names{}
+							for _, r := range rl.Repos {
+								n.add("List.Repos", r.Repository.Name)
+								n.ids = append(n.ids, r.Repository.ID)
+								for _, sr := range r.Repository.SubRepoMap {
+									n.add("List.SubRepoMap", sr.Name)
+								}
+							}
+							for id := range rl.ReposMap {
+								n.ids = append(n.ids, id)
+							}
+							sort.Slice(n.ids, func(i, j int) bool { return n.ids[i] < n.ids[j] })
+							emit("list", "ok", n, nil)
+						}
 					}
 				}
 			}
